@@ -13,7 +13,10 @@
  *          (anything after a second ':' is an annotation for the Lean driver and ignored here)
  * <cval> : d:<dec> (intmax_t)  u:<dec> (uintmax_t)  c:<code> (int)  s:<hex> (char*)  f:<text> (long double)  0: (no value argument)
  *          the '*' arguments of the C call are the leading i: arguments, as int.
- * stdout, one line per case:  H=<units|!ERR<num>> C=<units|NA>
+ * stdout, one line per case:  H=<units|!ERR<num>> C=<units|NA>[ F=<call>|<call>...]
+ *   F= (only when hawk called libc while formatting): every snprintf call hawk made for this case, in order, as
+ *   <format text in hex>;<size argument>;<return value>;<the long double argument as %La in hex>;<h|s: heap or stack buffer>
+ *   (the harness is linked with -Wl,--wrap=snprintf: __wrap_snprintf below sees exactly what fmt.c hands to libc)
  *   units = code units in hex joined by '.', empty string = "-"
  */
 #include <hawk-std.h>
@@ -25,6 +28,39 @@
 #include <inttypes.h>
 #include <locale.h>
 #include <unistd.h>
+
+#include <stdarg.h>
+/* link-time interposition on snprintf: log what hawk hands to libc while `fmtlog_on` is set */
+static int fmtlog_on = 0;
+static char fmtlog[8192];
+static size_t fmtlog_len = 0;
+static int fmtlog_calls = 0;
+int __wrap_snprintf (char* buf, size_t size, const char* fmt, ...)
+{
+	va_list ap; int n;
+	va_start (ap, fmt);
+	if (fmtlog_on)
+	{
+		va_list ap2; long double ld = 0; size_t k;
+		int onstack = ((char*)buf >= (char*)&ap - 65536 && (char*)buf <= (char*)&ap + 65536);
+		va_copy (ap2, ap);
+		if (strchr(fmt, 'L')) ld = va_arg(ap2, long double);
+		va_end (ap2);
+		n = vsnprintf(buf, size, fmt, ap);
+		fmtlog_calls++;
+		if (fmtlog_len + 2 * strlen(fmt) + 200 < sizeof(fmtlog))
+		{
+			if (fmtlog_len) fmtlog[fmtlog_len++] = '|';
+			for (k = 0; fmt[k]; k++) fmtlog_len += sprintf(&fmtlog[fmtlog_len], "%02x", (unsigned char)fmt[k]);
+			fmtlog_len += sprintf(&fmtlog[fmtlog_len], ";%lu;%d;", (unsigned long)size, n);
+			{ char t[64]; int m = sprintf(t, "%La", ld), j; for (j = 0; j < m; j++) fmtlog_len += sprintf(&fmtlog[fmtlog_len], "%02x", (unsigned char)t[j]); }
+			fmtlog_len += sprintf(&fmtlog[fmtlog_len], ";%c", onstack? 's': 'h');
+		}
+	}
+	else n = vsnprintf(buf, size, fmt, ap);
+	va_end (ap);
+	return n;
+}
 
 static const hawk_bch_t* src =
 	"function f0(f){return sprintf(f)}\n"
@@ -367,7 +403,9 @@ int main (int argc, char** argv)
 			for (i = 0; i < na; i++) { args[i + 1] = mkarg(a[i]); if (!args[i + 1]) bad = 1; }
 			if (bad || !args[0]) { puts("bad-arg"); continue; }
 			for (i = 0; i <= na; i++) hawk_rtx_refupval (rtx, args[i]);
+			fmtlog_len = 0; fmtlog_calls = 0; fmtlog_on = 1;
 			r = hawk_rtx_callwithbcstr(rtx, fn[na], args, na + 1);
+			fmtlog_on = 0;
 			fputs ("H=", stdout); put_val (r);
 			if (r) hawk_rtx_refdownval (rtx, r);
 			for (i = 0; i <= na; i++) hawk_rtx_refdownval (rtx, args[i]);
@@ -379,6 +417,7 @@ int main (int argc, char** argv)
 				c_side (cf, cval, a, na);
 				free (cf);
 			}
+			if (fmtlog_calls > 0) { fmtlog[fmtlog_len] = '\0'; printf (" F=%s", fmtlog); }
 			putchar ('\n');
 			continue;
 		}
